@@ -24,11 +24,14 @@ def run_monitor(case):
         if rnd.random() < 0.2:
             em.add(srcs[rnd.choice(order[:order.index(k) + 1])])     # repeats are ignored
     dut = event.Monitor(em, trigger=rnd.choice(["level", "rise", "fall"]))
+    pre = lib.rng_for(case["seed"], case["idx"], 1323).random() < 0.25
+    if pre:
+        Simulator(simutil.wrap(dut))       # a monitor may be elaborated more than once; the second elaboration is checked
     sim = Simulator(simutil.wrap(dut))
     sim.add_clock(1e-6)
     lines = ["case " + " ".join(m[0] for m in modes)]
     obs, fails = [], []
-    stats = {"cycles": 0, "trg_and_clear": 0, "sources": n, "edge_sources": sum(m != "level" for m in modes)}
+    stats = {"cycles": 0, "trg_and_clear": 0, "sources": n, "edge_sources": sum(m != "level" for m in modes), "pre_elaborated": int(pre)}
     style = rnd.choice(["random", "sparse", "busy"])
 
     async def tb(ctx):
